@@ -307,6 +307,12 @@ class Resolver:
                 return self.const(got.module, got.target, None, depth + 1)
             raise NotConstant(expr.id)
         if isinstance(expr, ast.Attribute):
+            if cls is not None and isinstance(expr.value, ast.Name) and expr.value.id in ("self", "cls"):
+                # a class-level constant read through the instance; never re-bound by a method of the class
+                attr = self.class_attr(cls, expr.attr)
+                if attr is not None and attr.kind == "value" and not self._instance_rebinds(cls, expr.attr):
+                    return self.const(attr.module or cls.module, attr.target, cls, depth + 1)
+                raise NotConstant(ast.unparse(expr))
             base = self.resolve_expr(mod, expr.value)
             if base is not None and base.kind == "class":
                 klass: ClassInfo = base.target
@@ -322,6 +328,14 @@ class Resolver:
                     return self.const(got.module, got.target, None, depth + 1)
             raise NotConstant(ast.unparse(expr))
         raise NotConstant(type(expr).__name__)
+
+    def _instance_rebinds(self, cls: ClassInfo, name: str) -> bool:
+        for klass in self.mro(cls):
+            for meth in klass.methods.values():
+                for n in ast.walk(meth.node):
+                    if isinstance(n, ast.Attribute) and n.attr == name and isinstance(n.ctx, (ast.Store, ast.Del)):
+                        return True
+        return False
 
     def _is_enum(self, cls: ClassInfo) -> bool:
         for base in cls.node.bases:
@@ -447,6 +461,32 @@ class Resolver:
         finally:
             self._busy_expr.discard(guard)
 
+    def ann_classes(self, mod: Module, ann: Optional[ast.AST]) -> List[ClassInfo]:
+        """Classes named by an annotation: the class itself, or the members of Optional[..] / Union[..] / X | Y."""
+        if ann is None:
+            return []
+        if isinstance(ann, ast.Constant) and isinstance(ann.value, str):
+            try:
+                ann = ast.parse(ann.value, mode="eval").body
+            except SyntaxError:
+                return []
+        got = self.resolve_class(mod, ann)  # type: ignore[arg-type]
+        if got is not None:
+            return [got]
+        out: List[ClassInfo] = []
+        if isinstance(ann, ast.Subscript) and ast.unparse(ann.value).split(".")[-1] in ("Optional", "Union"):
+            members = ann.slice.elts if isinstance(ann.slice, ast.Tuple) else [ann.slice]
+            for m in members:
+                for k in self.ann_classes(mod, m):
+                    if k not in out:
+                        out.append(k)
+        elif isinstance(ann, ast.BinOp) and isinstance(ann.op, ast.BitOr):
+            for m in (ann.left, ann.right):
+                for k in self.ann_classes(mod, m):
+                    if k not in out:
+                        out.append(k)
+        return out
+
     def _expr_classes(self, fn: FuncInfo, expr: ast.expr, depth: int = 0) -> List[ClassInfo]:
         mod = fn.module
         if isinstance(expr, ast.Await):
@@ -474,6 +514,30 @@ class Resolver:
                     got = self.resolve_class(mod, node.annotation)
                     if got is not None:
                         return [got]
+                # a, b = helper(...): the element the helper returns at that position
+                if isinstance(node, ast.Assign) and len(node.targets) == 1 and isinstance(node.targets[0], ast.Tuple) and isinstance(node.value, (ast.Call, ast.Await)):
+                    names = [e.id if isinstance(e, ast.Name) else None for e in node.targets[0].elts]
+                    if expr.id in names:
+                        idx = names.index(expr.id)
+                        call = node.value.value if isinstance(node.value, ast.Await) else node.value
+                        found: List[ClassInfo] = []
+                        if isinstance(call, ast.Call):
+                            for callee in self.callees(fn, call):
+                                if not isinstance(callee, FuncInfo) or callee.module.external:
+                                    continue
+                                for ret in own_nodes(callee.node):
+                                    if isinstance(ret, ast.Return) and isinstance(ret.value, ast.Tuple) and len(ret.value.elts) == len(names):
+                                        for k in self.expr_classes(callee, ret.value.elts[idx], depth + 1):
+                                            if k not in found:
+                                                found.append(k)
+                                if not found:
+                                    ann_r = getattr(callee.node, "returns", None)
+                                    if isinstance(ann_r, ast.Subscript) and isinstance(ann_r.slice, ast.Tuple) and len(ann_r.slice.elts) == len(names):
+                                        got = self.resolve_class(callee.module, ann_r.slice.elts[idx])
+                                        if got is not None:
+                                            found.append(got)
+                        if found:
+                            return found
             if fn.parent is not None:
                 return self.expr_classes(fn.parent, expr, depth + 1)
             return []
@@ -487,9 +551,9 @@ class Resolver:
             for owner in owners:
                 for klass in self.mro(owner):
                     if expr.attr in klass.ann:
-                        got = self.resolve_class(klass.module, klass.ann[expr.attr])
-                        if got is not None and got not in out:
-                            out.append(got)
+                        for got in self.ann_classes(klass.module, klass.ann[expr.attr]):
+                            if got not in out:
+                                out.append(got)
                         break
                     if expr.attr in klass.methods:
                         prop = klass.methods[expr.attr]
